@@ -3,6 +3,7 @@ package main
 import (
 	"fmt"
 	"go/token"
+	"go/types"
 	"sort"
 	"strings"
 
@@ -894,4 +895,237 @@ func backSliceCtl(v ssa.Value, visit func(v ssa.Value) bool) {
 		}
 	}
 	walk(v)
+}
+
+// ---------------------------------------------------------------------------
+// NILLIVE: a nil check must be able to fire (belief contradiction, the other way round)
+
+const ruleNILLIVEText = "nil checks are live: for each pointer-typed struct field of par1/par2 that some function compares with nil (absence of a packet is detected that way), at least one store into that field can store nil or an unknown value; if every store puts the address of a fresh object there, the absence check is dead and a file without that packet is accepted as an empty one"
+
+func provablyNonNil(v ssa.Value, seen map[ssa.Value]bool) bool {
+	if seen[v] {
+		return true
+	}
+	seen[v] = true
+	switch x := v.(type) {
+	case *ssa.Alloc, *ssa.FieldAddr, *ssa.IndexAddr, *ssa.Global, *ssa.MakeMap, *ssa.MakeSlice, *ssa.MakeChan, *ssa.MakeClosure:
+		return true
+	case *ssa.Phi:
+		for _, e := range x.Edges {
+			if !provablyNonNil(e, seen) {
+				return false
+			}
+		}
+		return true
+	case *ssa.ChangeType:
+		return provablyNonNil(x.X, seen)
+	}
+	return false
+}
+
+func ruleNILLIVE(w *World, r *Report) {
+	r.rule("NILLIVE", ruleNILLIVEText)
+	fns := w.funcsInPkgs("par1", "par2")
+	believed := map[ptrField]string{}
+	for _, fn := range fns {
+		for _, b := range fn.Blocks {
+			for _, in := range b.Instrs {
+				bo, ok := in.(*ssa.BinOp)
+				if !ok || (bo.Op != token.EQL && bo.Op != token.NEQ) {
+					continue
+				}
+				for _, pr := range [][2]ssa.Value{{bo.X, bo.Y}, {bo.Y, bo.X}} {
+					if !isNilConst(pr[1]) {
+						continue
+					}
+					if pf, _, ok := ptrFieldOf(pr[0]); ok && isModTypeName(pf.typ) {
+						if _, seen := believed[pf]; !seen {
+							believed[pf] = w.ipos(bo)
+						}
+					}
+				}
+			}
+		}
+	}
+	var bl []ptrField
+	for pf := range believed {
+		bl = append(bl, pf)
+	}
+	sort.Slice(bl, func(i, j int) bool { return bl[i].typ+bl[i].field < bl[j].typ+bl[j].field })
+	n := 0
+	for _, pf := range bl {
+		stores, nonNil := 0, 0
+		first := ""
+		for _, fn := range fns {
+			for _, b := range fn.Blocks {
+				for _, in := range b.Instrs {
+					st, ok := in.(*ssa.Store)
+					if !ok {
+						continue
+					}
+					fa, ok := st.Addr.(*ssa.FieldAddr)
+					if !ok || fieldName(fa.X.Type(), fa.Field) != pf.field || namedTypeName(fa.X.Type()) != pf.typ {
+						continue
+					}
+					stores++
+					if provablyNonNil(st.Val, map[ssa.Value]bool{}) {
+						nonNil++
+						if first == "" {
+							first = w.ipos(st)
+						}
+					}
+				}
+			}
+		}
+		key := pf.typ + "." + pf.field
+		n++
+		switch {
+		case stores == 0:
+			r.ok("NILLIVE", key, believed[pf], "never stored explicitly: the field keeps its nil zero value unless set elsewhere")
+		case nonNil == stores:
+			r.bad("NILLIVE", key, first, fmt.Sprintf("every store into %s (%d) puts the address of a fresh object there, yet %s tests it for nil: the test can never fire, so the absence it is meant to detect (a file without that packet) goes unnoticed", key, stores, believed[pf]))
+		default:
+			r.ok("NILLIVE", key, believed[pf], fmt.Sprintf("%d of %d stores can store nil or a value of unknown nil-ness", stores-nonNil, stores))
+		}
+	}
+	r.floor("NILLIVE", "pointer fields compared with nil somewhere", n, 1)
+}
+
+// ---------------------------------------------------------------------------
+// NONEMPTY: a slice collected by appends is indexed only where it is known to be non-empty
+
+const ruleNONEMPTYText = "collected slices are indexed only when known non-empty: in rsec16, par1 and par2, a constant index into a local slice that is built up by appends from empty (its length depends on the input) is dominated by a lower-bound test on the length of that same value (len(s) > c, len(s) >= n, len(s) != 0, or the false edge of len(s) < n)"
+
+func ruleNONEMPTY(w *World, r *Report, pkgs ...string) {
+	r.rule("NONEMPTY", ruleNONEMPTYText)
+	n := 0
+	for _, fn := range w.funcsInPkgs(pkgs...) {
+		k := 0
+		for _, b := range fn.Blocks {
+			for _, in := range b.Instrs {
+				ia, ok := in.(*ssa.IndexAddr)
+				if !ok {
+					continue
+				}
+				if _, isC := constInt(ia.Index); !isC {
+					continue
+				}
+				x := stripConv(ia.X)
+				phi, ok := x.(*ssa.Phi)
+				if !ok {
+					continue
+				}
+				apps, _ := appendWeb(phi)
+				if len(apps) == 0 || !webFromEmpty(phi, map[ssa.Value]bool{}) {
+					continue
+				}
+				key := fmt.Sprintf("%s:const-index#%d", shortName(fn), k)
+				k++
+				n++
+				okFact := ""
+				for _, c := range cmpsAt(b) {
+					for _, pr := range []struct {
+						x, y ssa.Value
+						op   token.Token
+					}{{c.X, c.Y, c.Op}, {c.Y, c.X, swapOp(c.Op)}} {
+						if pr.x == nil || pr.y == nil {
+							continue
+						}
+						lc, ok := stripConv(pr.x).(*ssa.Call)
+						if !ok || isBuiltinCall(lc, "len") == nil || stripConv(lc.Call.Args[0]) != ssa.Value(phi) {
+							continue
+						}
+						switch pr.op {
+						case token.GTR, token.GEQ:
+							if cv, isC := constInt(pr.y); isC && (cv < 0 || (cv == 0 && pr.op == token.GEQ)) {
+								continue
+							}
+							okFact = fmt.Sprintf("len %s %s", pr.op, pr.y)
+						case token.NEQ:
+							if cv, isC := constInt(pr.y); isC && cv == 0 {
+								okFact = "len != 0"
+							}
+						}
+					}
+				}
+				if okFact != "" {
+					r.ok("NONEMPTY", key, w.ipos(ia), "dominated by "+okFact+" on the same slice value")
+				} else {
+					r.bad("NONEMPTY", key, w.ipos(ia), fmt.Sprintf("%s is built up by appends from empty and is indexed with a constant here without a dominating lower bound on its length: when nothing has been collected yet this panics", phiName(phi)))
+				}
+			}
+		}
+	}
+	r.floor("NONEMPTY", "constant indexes into append-built slices", n, 1)
+}
+
+// webFromEmpty: every non-append source of the phi/append web is nil or an empty make.
+func webFromEmpty(v ssa.Value, seen map[ssa.Value]bool) bool {
+	if seen[v] {
+		return true
+	}
+	seen[v] = true
+	switch x := v.(type) {
+	case *ssa.Phi:
+		for _, e := range x.Edges {
+			if !webFromEmpty(e, seen) {
+				return false
+			}
+		}
+		return true
+	case *ssa.Const:
+		return x.IsNil()
+	case *ssa.Call:
+		if c := isBuiltinCall(x, "append"); c != nil {
+			return webFromEmpty(c.Call.Args[0], seen)
+		}
+	case *ssa.MakeSlice:
+		if c, ok := constInt(x.Len); ok && c == 0 {
+			return true
+		}
+	}
+	return false
+}
+
+// ---------------------------------------------------------------------------
+// INTONLY: finite-field and GF(2)[x] arithmetic is exact integer arithmetic
+
+const ruleINTONLYText = "field arithmetic is integer arithmetic: in packages gf2 and gf2p16 no value is converted between an integer and a floating-point type and no function of package math is called (a float64 holds 53 bits: the degree or value of a 64-bit polynomial does not survive the conversion)"
+
+func ruleINTONLY(w *World, r *Report) {
+	r.rule("INTONLY", ruleINTONLYText)
+	nFn := 0
+	isFloat := func(t types.Type) bool {
+		b, ok := t.Underlying().(*types.Basic)
+		return ok && b.Info()&(types.IsFloat|types.IsComplex) != 0
+	}
+	for _, fn := range w.funcsInPkgs("gf2", "gf2p16") {
+		if len(fn.Blocks) == 0 {
+			continue
+		}
+		nFn++
+		bad := ""
+		at := ""
+		for _, b := range fn.Blocks {
+			for _, in := range b.Instrs {
+				switch x := in.(type) {
+				case *ssa.Convert:
+					if isFloat(x.Type()) != isFloat(x.X.Type()) {
+						bad, at = fmt.Sprintf("converts %s to %s", x.X.Type(), x.Type()), w.ipos(x)
+					}
+				case ssa.CallInstruction:
+					if f := x.Common().StaticCallee(); f != nil && f.Pkg != nil && f.Pkg.Pkg.Path() == "math" {
+						bad, at = "calls "+f.String(), w.ipos(x)
+					}
+				}
+			}
+		}
+		if bad != "" {
+			r.bad("INTONLY", shortName(fn), at, shortName(fn)+" "+bad+": polynomials with more than 53 significant bits are rounded")
+		}
+	}
+	if nFn > 0 {
+		r.ok("INTONLY", "gf2+gf2p16:functions", "", fmt.Sprintf("%d functions use integer operations only", nFn))
+	}
+	r.floor("INTONLY", "functions of gf2 and gf2p16 examined", nFn, 20)
 }
